@@ -25,8 +25,8 @@ SENTINEL = "SENTINEL-C18"
 WAIT = 0.25
 
 
-def make_tree(typed):
-    t = (TypedTree if typed else Tree)("c18")
+def make_tree(typed, t=None):
+    t = (TypedTree if typed else Tree)("c18") if t is None else t
     kw = {"kind": "k1"} if typed else {}
     a = t.add("A", **kw)
     a.add("a1", **kw)
@@ -72,9 +72,9 @@ def snapshot_ops(tree, typed):
     return {"save": save, "copy": copy, "filtered": filtered, "copy_to": copy_to, "to_dict_list": to_dict_list, "to_dotfile": to_dotfile, "with tree": with_tree}
 
 
-def controlled_schedule(typed, opname, out, wait=WAIT):
-    """A holds the lock and has a sentinel node in the tree; B starts the snapshot operation.
-    Returns the event order and the verdict."""
+def controlled_schedule(typed, opname, out, wait=WAIT, mode="sentinel"):
+    """A holds the lock and has a sentinel node in the tree (mode `emptied`: has cleared the tree and will rebuild it
+    before leaving); B starts the snapshot operation.  Returns the event order and the verdict."""
     tree = make_tree(typed)
     ops = snapshot_ops(tree, typed)
     events = []
@@ -91,12 +91,20 @@ def controlled_schedule(typed, opname, out, wait=WAIT):
     def thread_a():
         with tree:
             ev("A.acq")
-            s = tree.add(SENTINEL, **({"kind": "sentinel-kind"} if typed else {}))
-            ev("A.write(add sentinel)")
+            if mode == "emptied":
+                tree.clear()
+                ev("A.write(clear)")
+            else:
+                s = tree.add(SENTINEL, **({"kind": "sentinel-kind"} if typed else {}))
+                ev("A.write(add sentinel)")
             entered.set()
             res["b_finished_inside"] = b_done.wait(timeout=wait)
-            s.remove()
-            ev("A.write(remove sentinel)")
+            if mode == "emptied":
+                make_tree(typed, tree)
+                ev("A.write(rebuild)")
+            else:
+                s.remove()
+                ev("A.write(remove sentinel)")
             ev("A.rel")
 
     def thread_b():
@@ -129,6 +137,8 @@ def controlled_schedule(typed, opname, out, wait=WAIT):
         problems.append(f"{opname} completed while another thread was inside `with tree:`")
     if SENTINEL in text or "sentinel-kind" in text:
         problems.append(f"the snapshot of {opname} contains state that only existed inside another thread's critical section (sentinel)")
+    if mode == "emptied" and snap is not None and "a2" not in text:
+        problems.append(f"the snapshot of {opname} shows the emptied tree that only existed inside another thread's critical section")
     return events, problems
 
 
@@ -333,6 +343,14 @@ def run(ctx):
                     out.disagree(case, f"the observed event order is not an execution of the lock model: {m}")
             if len(out.samples) < 3:
                 out.sample(case)
+        for opname in ops:
+            # the critical section empties the tree and rebuilds it: no snapshot may show (or shortcut on) the empty state
+            events, problems = controlled_schedule(typed, opname, out, mode="emptied")
+            case = dict(kind="schedule", typed=typed, op=opname, events=events, mode="emptied")
+            out.count((typed, opname, "emptied"), True)
+            out.dist["emptied:" + opname] += 1
+            for p in problems:
+                out.fail(case, f"[{'TypedTree' if typed else 'Tree'}.{opname}, tree emptied inside the critical section] {p}; event order {events}")
         for opname in ["save", "copy", "filtered", "to_dict_list", "to_dotfile"]:
             events, problems = reader_first_schedule(typed, opname)
             case = dict(kind="reader-first", typed=typed, op=opname, events=events)
@@ -358,7 +376,7 @@ def replay(ctx, rp):
     case = rp["case"]
     out = core.Outcome()
     if case.get("kind") == "schedule":
-        events, problems = controlled_schedule(case["typed"], case["op"], out)
+        events, problems = controlled_schedule(case["typed"], case["op"], out, mode=case.get("mode", "sentinel"))
         return dict(events=events, problems=problems, property_holds=not problems)
     if case.get("kind") == "reader-first":
         events, problems = reader_first_schedule(case["typed"], case["op"])
